@@ -50,7 +50,24 @@ TEMPLATES = {
     "dict": "{{{0}: {1}}}", "set": "{{{0}}}", "star": "[*{0}]", "await": "await {0}",
     "yield": "(yield {0})", "yieldfrom": "(yield from {0})",
     "subclasses": "().__class__.__bases__[0].__subclasses__()",
+    # parents with one hole: the forbidden node goes BENEATH them
+    "p_attr": "{0}.real", "p_attr2": "{0}.real.imag", "p_attrcount": "{0}.count", "p_sub": "{0}[0]",
+    "p_subidx": "a[{0}]", "p_add": "{0} + 1", "p_radd": "1 + {0}", "p_mul": "{0} * b", "p_neg": "-{0}",
+    "p_not": "not {0}", "p_lt": "{0} < 1", "p_rlt": "1 < {0}", "p_chain": "a < b < {0}", "p_eq": "{0} == 0",
+    "p_in": "{0} in (1, 2)", "p_list": "[{0}, 1]", "p_tuple": "(1, {0})", "p_and": "{0} and a", "p_or": "b or {0}",
+    "p_ifexp": "a if {0} else b", "p_callarg": "a({0})", "p_callfunc": "{0}(1)", "p_callkw": "a(k={0})",
+    "p_attrcmp": "{0}.available == 0",
+    # leaves: nodes that most whitelists forbid
+    "l_call": "a()", "l_call1": "b(1)", "l_walrus": "(x := c)", "l_walruscall": "(x := a())",
+    "l_listcomp": "[a() for _ in (1, 2)]", "l_lamcall": "(lambda: 7)()", "l_lambda": "lambda: a",
+    "l_import": "__import__('os')", "l_open": "open('" + CANARY_FILE + "', 'w')", "l_attr": "a.real",
+    "l_dunder": "a.__class__", "l_sub": "a[0]", "l_const": "1", "l_add": "a + b", "l_not": "not a",
+    "l_and": "a and b", "l_cmp": "a < b", "l_method": "a.poke(1)", "l_replace": "a._replace(available=0)",
+    "l_genexp": "(x for x in a)", "l_fstr": "f'{{a}}'", "l_await": "await a", "l_ifexp": "a if b else c",
+    "l_dict": "{{a: b}}", "l_starred": "[*a]", "l_tuple": "(a, b)", "l_debug": "__debug__", "l_builtins": "__builtins__",
 }
+PARENTS = sorted(k for k in TEMPLATES if k.startswith("p_"))
+LEAVES = sorted(k for k in TEMPLATES if k.startswith("l_"))
 ARITY = {k: (2 if "{1}" in v else 1 if "{0}" in v else 0) for k, v in TEMPLATES.items()}
 
 CUSTOM_WHITELISTS = [
@@ -63,7 +80,18 @@ CUSTOM_WHITELISTS = [
     ["Name", "Load", "BoolOp", "And", "Or"],
     ["Expression", "Name", "BoolOp", "And", "Or"],
     ["Expression", "Name", "Load", "BoolOp", "And", "Or", "Compare", "cmpop", "IfExp", "Tuple", "List"],
+    # generic evaluators that whitelist attribute access / subscripts / calls
+    ["Expression", "Name", "Load", "Attribute", "Constant"],
+    ["Expression", "Name", "Load", "Attribute", "Subscript", "Constant", "BoolOp", "And", "Or", "Compare", "cmpop"],
+    ["Expression", "Name", "Load", "Attribute", "Call", "keyword", "Constant"],
 ]
+# the production whitelists as they are expected to be (only used to AIM the nested generator:
+# which parents are whitelisted; the oracle does not depend on it)
+AIM_WHITELISTS = {
+    "completion": ["Expression", "Name", "Load", "BoolOp", "And", "Or", "BinOp"],
+    "ranking": ["Expression", "Name", "Load", "Attribute", "Subscript", "BinOp", "operator", "UnaryOp", "unaryop",
+                "Constant", "Compare", "cmpop", "List", "Tuple"],
+}
 
 MALFORMED = ["", "a and", "(a", "a)", "a b", "a;b", "a\nb", "import os", "x = 1", "a and # c", "a &&  b",
              "lambda", "a if b", "[x for]", "f'{a'", "a and\nb", "1 +", "def f(): pass", "a = b or c",
@@ -140,6 +168,68 @@ def _ref_eval(tree, env):
     return None
 
 
+def _aim_tables():
+    """For every evaluator: templates all of whose own nodes are whitelisted (ok parents) and leaf
+    templates containing a node that is not (forbidden leaves).  Uses the ast module of the
+    interpreter running the check (the same CPython that runs cylc)."""
+    import ast
+    kinds_all = [n for n in dir(ast) if isinstance(getattr(ast, n), type)
+                 and issubclass(getattr(ast, n), ast.AST) and getattr(ast, n).__name__ == n]
+
+    def expand(raw):
+        bases = tuple(getattr(ast, n) for n in raw)
+        return {k for k in kinds_all if issubclass(getattr(ast, k), bases)}
+
+    def tkinds(t):
+        txt = TEMPLATES[t].format("(a)", "(b)")
+        tree = ast.parse(txt, mode="eval")
+        ks = {type(n).__name__ for n in ast.walk(tree)}
+        res = {n.id for n in ast.walk(tree) if isinstance(n, ast.Name)} & {"__debug__", "__builtins__"}
+        return ks, bool(res)
+
+    tk = {t: tkinds(t) for t in PARENTS + LEAVES}
+    evs = dict(AIM_WHITELISTS)
+    for i, raw in enumerate(CUSTOM_WHITELISTS):
+        evs[f"custom:{i}"] = raw
+    out = {}
+    for ev, raw in evs.items():
+        wl = expand(raw)
+        ok_parents = [t for t in PARENTS if tk[t][0] <= wl]
+        bad_leaves = [t for t in LEAVES if not (tk[t][0] <= wl) or tk[t][1]]
+        out[ev] = (ok_parents, bad_leaves)
+    return out
+
+
+def _nested(rng, tier):
+    """Forbidden nodes nested beneath chains of whitelisted parents, for every evaluator."""
+    cases = []
+    for ev, (parents, leaves) in sorted(_aim_tables().items()):
+        if not parents or not leaves:
+            continue
+
+        def wrap(leaf, chain):
+            r = ["t", leaf, []]
+            for p in chain:
+                r = ["t", p, [r]]
+            return r
+
+        def add(rec):
+            env = {v: rng.random() < 0.5 for v in SUPPLIED}
+            cases.append({"evaluator": ev, "recipe": rec, "env": env, "kind": "nested"})
+        if tier == "thorough":
+            for p in parents:
+                for lf in leaves:
+                    add(wrap(lf, [p]))
+            n_deep = 150
+        else:
+            for p in parents:
+                add(wrap(rng.choice(leaves), [p]))
+            n_deep = 4
+        for _ in range(n_deep):
+            add(wrap(rng.choice(leaves), [rng.choice(parents) for _ in range(rng.randint(2, 4))]))
+    return cases
+
+
 class EvalStream(Stream):
     name = "eval"
     coq_import = "From Cylc Require Import Gen.EvalWhitelist Model.RestrictedEval."
@@ -148,7 +238,9 @@ class EvalStream(Stream):
     rule = ("generated expression texts: BoolOp/Name trees (supplied, unsupplied and builtin names) mixed with calls, "
             "attribute access, subscripts, lambdas, comprehensions, walrus, f-strings, constants, operators, await/yield "
             "at random positions, plus syntactically malformed texts; run through the real CompletionEvaluator, "
-            "RankingExpressionEvaluator and restricted_evaluator with 9 other whitelists (incl. abstract base classes), "
+            "RankingExpressionEvaluator and restricted_evaluator with 12 other whitelists (incl. abstract base classes and ones with "
+            "Attribute/Subscript/Call); for every evaluator, forbidden nodes are also nested beneath every whitelisted parent kind "
+            "(attribute access, subscript, operators, comparisons, containers, calls; chains up to depth 4); "
             "variables bound to recording objects, builtins.open/__import__ wrapped; non-trivial = tree with >= 4 nodes")
     shard_size = 300
     n_hashseeds = 4
@@ -182,6 +274,17 @@ class EvalStream(Stream):
             mk("custom:4", ["or", [["n", "globals"], ["n", "a"], ["t", "await", [["n", "b"]]]]]),
             mk("custom:4", ["or", [["n", "c"], ["t", "yield", [["n", "b"]]]]]),
             {"evaluator": "completion", "text": "a and", "env": env, "kind": "malformed"},
+            # forbidden nodes beneath attribute access (seeded regression: visit_Attribute without generic_visit)
+            mk("ranking", ["t", "p_attr", [["t", "l_call", []]]], kind="nested"),
+            mk("ranking", ["t", "p_lt", [["t", "p_attr", [["t", "l_walruscall", []]]]]], kind="nested"),
+            mk("ranking", ["t", "p_attrcount", [["t", "l_listcomp", []]]], kind="nested"),
+            mk("ranking", ["t", "p_attr", [["t", "l_lamcall", []]]], kind="nested"),
+            mk("ranking", ["t", "p_attrcmp", [["t", "l_replace", []]]], kind="nested"),
+            mk("custom:9", ["t", "p_attr", [["t", "l_call", []]]], kind="nested"),
+            mk("custom:10", ["t", "p_sub", [["t", "p_attr", [["t", "l_import", []]]]]], kind="nested"),
+            mk("custom:11", ["t", "p_callfunc", [["t", "l_lambda", []]]], kind="nested"),
+            mk("ranking", ["t", "p_attr", [["n", "a"]]], kind="nested-ok"),
+            mk("ranking", ["t", "dunder", [["n", "a"]]], kind="nested-ok"),
         ]
 
     def gen(self, rng, tier):
@@ -204,6 +307,7 @@ class EvalStream(Stream):
             else:
                 rec, kind = _rand_unsafe(rng, rng.randint(1, 2), names), "unsafe"
             cases.append({"evaluator": ev, "recipe": rec, "env": env, "kind": kind})
+        cases.extend(_nested(rng, tier))
         return cases
 
     # ---------------------------------------------------------------- impl
